@@ -1263,6 +1263,7 @@ fn execute(sc: &Scenario, keep: bool) -> (Report, RunInfo) {
     }
 
     probes.merge(&sh.probes.borrow());
+    probes.inc(if sc.guarded { "generated_guarded" } else { "generated_unguarded" });
     if ended == End::Cap && !sh.partitioned.get() && holds.is_empty() {
         probes.inc("step_cap_reached");
     }
